@@ -59,6 +59,14 @@ func stdProfile(r *rand.Rand) (gen.Profile, gen.DataCfg) {
 	return p, d
 }
 
+// hostileProfile: entity ids containing ':' or '#', strings with quotes / backslashes / unicode / control characters.
+func hostileProfile(r *rand.Rand) (gen.Profile, gen.DataCfg) {
+	p, d := stdProfile(r)
+	d.Hostile = true
+	d.IDStyle = r.Intn(3)
+	return p, d
+}
+
 var c01Configs = []rig.Config{
 	{}, {Hint: true}, {Merger: "sanitize"}, {Merger: "sanitize", Hint: true},
 	{Planner: "cached", TTLms: 3600000}, {Planner: "cached", TTLms: 3600000, Hint: true, Merger: "sanitize"},
@@ -83,12 +91,17 @@ func (p c01) Gen(c *run.Ctx, idx int) (json.RawMessage, error) {
 	_, o := opsPerUniverse(c.Tier)
 	uidx := idx / o
 	cu, err := universe(c.Seed, "std", uidx, stdProfile)
+	if uidx%6 == 5 {
+		cu, err = universe(c.Seed, "hostile", uidx, hostileProfile)
+	}
 	if err != nil {
 		return nil, err
 	}
 	r := rng(c.Seed, "c01/op", idx)
 	prof := gen.DefaultOpProfile()
 	prof.Pool = cu.spec.Data.Pool
+	prof.IDStyle = cu.spec.Data.IDStyle
+	prof.HostileStrings = cu.spec.Data.Hostile
 	if r.Intn(6) == 0 && cu.mono.Mutation != nil {
 		prof.Kind = ast.Mutation
 	}
@@ -188,6 +201,18 @@ func execOpCase(prop string, sp *opCase) run.Result {
 		tags[t] = true
 	}
 	tags[fmt.Sprintf("k=%d", len(sp.U.Services))] = true
+	if sp.U.Data.Hostile {
+		tags["data:hostile-strings"] = true
+	}
+	switch sp.U.Data.IDStyle {
+	case 1:
+		tags["data:id-with-colon"] = true
+	case 2:
+		tags["data:id-with-hash"] = true
+	}
+	if strings.Contains(sp.Op.Query, "\\") {
+		tags["op:escaped-string-literal"] = true
+	}
 	doc, gerr := gqlparser.LoadQuery(r.Merged.Schema, sp.Op.Query)
 	if gerr != nil {
 		res.Verdict = run.Skip
